@@ -70,15 +70,43 @@ def gen_valext():
     need("lyplg_type_sort_union", b, [
         ("same member: the member's sort",
          "if(val1->subvalue->value.realtype==val2->subvalue->value.realtype){returnval1->subvalue->value.realtype->plugin->sort(ctx,&val1->subvalue->value,&val2->subvalue->value);}"),
-        ("different members: position in the types array, earlier member is the greater one",
-         "LY_ARRAY_FOR(types,u){if(types[u]==val1->subvalue->value.realtype){rc=1;break;}elseif(types[u]==val2->subvalue->value.realtype){rc=-1;break;}}"),
         ("result", "returnrc;}")])
+    # different members: position in the types array, the earlier member is the greater one; repaired (F424): a leafref member is looked up by the
+    # type of its target (the realtype of the values it stores)
+    loop_pinned = "LY_ARRAY_FOR(types,u){if(types[u]==val1->subvalue->value.realtype){rc=1;break;}elseif(types[u]==val2->subvalue->value.realtype){rc=-1;break;}}"
+    loop_fixed = ("LY_ARRAY_FOR(types,u){conststructlysc_type*type=types[u];if(type->basetype==LY_TYPE_LEAFREF){type=((structlysc_type_leafref*)type)->realtype;}"
+                  "if(type==val1->subvalue->value.realtype){rc=1;break;}elseif(type==val2->subvalue->value.realtype){rc=-1;break;}}")
+    sort_lref = loop_fixed in b
+    if (loop_pinned in b) == sort_lref:
+        missing.append("lyplg_type_sort_union: loop over the types array of an unknown shape")
     b = body_of("plugins_types/union.c", "lyb_union_validate")
     need("lyb_union_validate", b, [("size check", "if(lyb_data_len<TYPE_IDX_SIZE){"), ("index check", "if(type_idx>=LY_ARRAY_COUNT(type_u->types)){"),
                                    ("little-endian index", "memcpy(&type_idx,lyb_data,TYPE_IDX_SIZE);type_idx=le64toh(type_idx);")])
     b = body_of("plugins_types/union.c", "lyb_union_print")
     need("lyb_union_print", b, [("member looked up again", "r=union_find_type(ctx,type_u,&tmp,0,0,NULL,NULL,&type_idx,NULL,&err);"),
                                 ("index then member value", "num=type_idx;num=htole64(num);memcpy(ret,&num,TYPE_IDX_SIZE);memcpy((char*)ret+TYPE_IDX_SIZE,pval,pval_len);")])
+    b = body_of("plugins_types/union.c", "union_store_type")
+    need("union_store_type", b, [
+        ("the member stores the original text with the kept format / prefix data / hints",
+         "rc=type->plugin->store(ctx,type,value,value_len,opts,format,prefix_data,subvalue->hints,subvalue->ctx_node,&subvalue->value,unres,err);"),
+        ("a member that answered LY_EINCOMPLETE is validated when the caller asks for it",
+         "if(validate&&(rc==LY_EINCOMPLETE)){rc=type->plugin->validate(ctx,type,ctx_node,tree,&subvalue->value,err);if(rc){type->plugin->free(ctx,&subvalue->value);}}returnrc;}")])
+    b = body_of("plugins_types/union.c", "lyplg_type_validate_union")
+    need("lyplg_type_validate_union", b, [
+        ("text formats: all members tried again with resolution", "if(!validated){rc=union_find_type(ctx,type_u,subvalue,0,1,ctx_node,tree,NULL,NULL,err);if(rc){subvalue->value=orig;returnrc;}}"),
+        ("canonical value of the member that holds the value now", "LY_CHECK_RET(lydict_insert(ctx,subvalue->value._canonical,0,&storage->_canonical));")])
+    b = body_of("plugins_types/leafref.c", "lyplg_type_store_leafref")
+    need("lyplg_type_store_leafref", b, [
+        ("stored by the plug-in of the target's type", "rc=type_lr->realtype->plugin->store(ctx,type_lr->realtype,value,value_len,options,format,prefix_data,hints,ctx_node,storage,unres,err);"),
+        ("require-instance: to be resolved", "if(type_lr->require_instance){returnLY_EINCOMPLETE;}else{returnLY_SUCCESS;}}")])
+    b = body_of("plugins_types/leafref.c", "lyplg_type_validate_leafref")
+    need("lyplg_type_validate_leafref", b, [
+        ("nothing to resolve without require-instance", "if(!type_lr->require_instance){returnLY_SUCCESS;}"),
+        ("resolved against the tree", "rc=lyplg_type_resolve_leafref(type_lr,ctx_node,storage,tree,")])
+    for fn, cb in (("lyplg_type_compare_leafref", "compare"), ("lyplg_type_sort_leafref", "sort")):
+        b = body_of("plugins_types/leafref.c", fn)
+        if b != "{returnval1->realtype->plugin->%s(ctx,val1,val2);}" % cb:
+            missing.append("%s: shape" % fn)
     b = body_of("plugins_types/union.c", "lyb_fill_subvalue")
     need("lyb_fill_subvalue", b, [("only the member named by the index", "ret=union_store_type(ctx,type_u,type_idx,subvalue,*options,0,NULL,NULL,unres,err);")])
     b = body_of("plugins_types/union.c", "lyplg_type_store_union")
@@ -191,6 +219,9 @@ def gen_valext():
            "/-- identityref.c `lyplg_type_sort_identityref`: the module name is compared when the identity names are equal (false on the pinned",
            "    tree: names only, finding F411) -/",
            "def identSortModule : Bool := %s" % ("true" if sort_module else "false"),
+           "/-- union.c `lyplg_type_sort_union`: a leafref member is looked up by its target's type (false on the pinned tree: values of leafref",
+           "    members are never found, finding F424) -/",
+           "def unionSortLeafrefTarget : Bool := %s" % ("true" if sort_lref else "false"),
            "/-- date_and_time.c `lyplg_type_sort_date_and_time`: the sign of the time difference is returned (repaired, F413); false on the pinned",
            "    tree: `(int)difftime(..)`, undefined for instants 2^31 s or more apart -/",
            "def dtSortClamped : Bool := %s" % ("true" if dt_sort_clamped else "false"),
